@@ -5,6 +5,7 @@ from collections import defaultdict
 from typing import NamedTuple
 from typing import TypeVar
 
+import attr
 import lark
 
 from . import atoms
@@ -333,6 +334,10 @@ class TreeToODE(lark.Transformer):
 
         comments = []
         seen: dict[str, atoms.Atom] = {}
+        # Components of the last expressions block with a header. A comment (or an
+        # empty line) ends that block for the parser, but it carries no meaning: the
+        # assignments that follow still belong to the same components.
+        scope: tuple[str, ...] | None = None
         for line in s:  # Each line in the block
             if isinstance(line, atoms.Comment):
                 comments.append(line)
@@ -341,6 +346,14 @@ class TreeToODE(lark.Transformer):
                 assert line.strip() == "", f"Invalid line {line!r}"
                 # Skip empty lines
                 continue
+            if len(line) > 0 and isinstance(line[0], atoms.Assignment):
+                if scope is not None and all(a.components == ("",) for a in line):
+                    line = tuple(attr.evolve(a, components=scope) for a in line)
+                else:
+                    scope = None if line[0].components == ("",) else line[0].components
+            else:
+                # A states or parameters block ends the scope
+                scope = None
 
             for atom in line:  # State, Parameters or Assignment
                 # A name may be repeated only with the very same definition. The sets
